@@ -158,7 +158,7 @@ class Run:
         """A counterexample that has been replayed against the real code.  `role` identifies the failing
         input by role (not raw bytes); if property+lemma/role is listed in known_findings.txt it is a
         KNOWN-FINDING, otherwise a VIOLATION."""
-        key = "%s/%s" % (lemma, role)
+        key = "%s/%s" % (lemma.split("[")[0], role)
         listed = self.known.lookup(self.prop, key)
         if listed is not None:
             if key not in [k for (_, k) in self.known_hits]:
